@@ -1,5 +1,5 @@
 (* C09 - CTAP1/U2F responses are encoded in the U2F raw message layout. *)
-From Ctap Require Import Base Schema Wire Typed Procs Inst Tables ProcTables Finite FramingP WireP LayoutP.
+From Ctap Require Import Base Schema Wire Typed Procs Inst Tables ProcTables Finite FramingP WireP LayoutP FnShapes Shapes ObShapeU2fSer.
 Local Open Scope string_scope.
 Local Open Scope Z_scope.
 
@@ -63,6 +63,11 @@ Qed.
 Example c09_ex : u2f_serialize (U2fAuthResp 1 0x01020304 [9; 9]) 10 [0xEE] = (true, [0xEE; 1; 1; 2; 3; 4; 9; 9]).
 Proof. vm_compute. reflexivity. Qed.
 
+(* tie to the source for the hand-modelled procedural code: the bodies of these functions, as regenerated from
+   /repo now, have the shape (literals, operators, calls, control flow, constants) the model was written against *)
+Theorem c09_modelled_functions_unchanged_u2f_ser : shapes_hold fn_shapes shapes_u2f_ser = true.
+Proof. exact generated_shapes_u2f_ser. Qed.
+
 Eval vm_compute in "ASSUMPTIONS c09_parts". Print Assumptions c09_parts.
 Eval vm_compute in "ASSUMPTIONS c09_length_byte_exact". Print Assumptions c09_length_byte_exact.
 Eval vm_compute in "ASSUMPTIONS c09_generated_capacities". Print Assumptions c09_generated_capacities.
@@ -70,3 +75,4 @@ Eval vm_compute in "ASSUMPTIONS c09_fits". Print Assumptions c09_fits.
 Eval vm_compute in "ASSUMPTIONS c09_overflow". Print Assumptions c09_overflow.
 Eval vm_compute in "ASSUMPTIONS c09_prior_kept". Print Assumptions c09_prior_kept.
 Eval vm_compute in "ASSUMPTIONS c09_pubkey". Print Assumptions c09_pubkey.
+Eval vm_compute in "ASSUMPTIONS c09_modelled_functions_unchanged_u2f_ser". Print Assumptions c09_modelled_functions_unchanged_u2f_ser.
